@@ -228,7 +228,9 @@ def run_cfg(ctx, p, cfg):
                             cs |= {x[2] for x in walk(a) if x[0] == "const" and x[1] == "str"}
                 r.require(missing in cs and not [c for c in f.calls("serde_core::de::Error::missing_field") if c.block in nreg], "missing-kind-defaults-to-%s:%s" % (missing, adt), fn=f,
                           detail="a section without `kind` uses %r (constants on that edge: %s)" % (missing, sorted(cs)))
-        r.floor("tagged-sections", n, 4)
+        r.floor("tagged-sections", n, sum(1 for a in TAGGED if a in p.adts))
+        if cfg == "default":
+            r.floor("tagged-sections-default-features", n, 6)
 
     with ctx.rule("K5", "pipelines", cfg) as r:
         f = p.fn("config::raw::RawConfig::appenders_lossy")
@@ -311,7 +313,9 @@ def run_cfg(ctx, p, cfg):
         parsers = {"Yaml": "serde_yaml::de::from_str", "Json": "serde_json::de::from_str", "Toml": "toml::de::from_str"}
         fa = p.adt("config::file::Format")
         variants = [v["name"] for v in fa["variants"]]
-        if len(variants) == 1:
+        if not variants:
+            r.ok("no-format-compiled", fn=g, detail="no file format feature is enabled in this configuration: Format has no variants")
+        elif len(variants) == 1:
             cs = [c.callee for c in g.calls() if (c.callee or "").endswith("::from_str")]
             r.require(cs == [parsers[variants[0]]], "parser:%s" % variants[0], fn=g, detail="Format::%s parses with %s" % (variants[0], cs))
         else:
